@@ -23,7 +23,7 @@ import random
 
 from .core import cstr, clist, cbool, cnat, copt
 
-LIT = ["alpha", "beta", "gamma", "mtu", "ip", "peer", "vlan", "interface", "port", "system"]
+LIT = ["alpha", "beta", "gamma", "mtu", "ip", "peer", "vlan", "interface", "port", "system", "interfaces"]
 VAL = ["1", "2", "3", "x", "y", "10.0.0.1", "Eth1", "interfaces"]
 GENS = ["g1", "g2", "g3"]
 
@@ -292,6 +292,62 @@ def gen_acl_overlap(rng: random.Random, rev: str) -> tuple[list[dict], dict]:
         if rng.random() < 0.7:
             tree[row] = {"mtu 9000": {}, "ip x": {}} if rng.random() < 0.5 else {}
     return acl, tree
+
+
+def gen_acl_shared_children(rng: random.Random, rev: str) -> tuple[list[list[dict]], dict]:
+    """Two (or three) generators' ACLs whose parent rules overlap on SOME rows only: P = `w *` with a child
+    block rule that has children of its own, Q = a more specific sibling (`w */a[0-9]+/` or a literal) that
+    contributes %global rules.  A row matched by both is governed by the union of the children rule sets;
+    a row matched by P alone must see P's children only - whatever was computed for other rows before it
+    (the compiled ACL is cached per text and shared by every row, pass and device of a process).
+    Returns (one structured ACL per generator, a tree in which rows of both kinds sit side by side, in either
+    order, each with rows that only Q's %global rules would pass)."""
+    w, u = rng.sample(["port", "vlan", "peer", "system", "interface"], 2)
+    d, f, g = rng.sample(["alpha", "beta", "gamma", "mtu", "ip"], 3)
+    spec = rng.choice([f"{w} */a[0-9]+/", f"{w} a1", f"{w} */a[0-9]+/"])
+    deep = rng.random() < 0.7
+    p_kids = [_it(f"{u} *", kids=[_it(f"{d} ~")] if deep else [])]
+    if not deep:
+        p_kids.append(_it(f"{d} ~"))
+    P = _it(f"{w} *", cd=rng.choice([None, [True], [False]]), kids=p_kids)
+    q_kids = [_it(f"{f} ~", glob=True)]
+    if rng.random() < 0.6:
+        q_kids.append(_it(f"{g} *", glob=True, cd=[rng.random() < 0.5]))
+    if rng.random() < 0.3:
+        q_kids.append(_it(f"{u} *", kids=[_it(f"{g} ~")]))
+    Q = _it(spec, kids=q_kids)
+    parts = [[P], [Q]]
+    if rng.random() < 0.3:
+        parts.append([_it(f"{w} */b[0-9]+/", kids=[_it(f"{g} ~", glob=rng.random() < 0.5)])])
+    if rng.random() < 0.3:
+        parts.reverse()
+    if rng.random() < 0.35:                       # the overlapping rules one level down, under a common wrapper
+        wrap = rng.choice(["system", "interfaces", "alpha"])
+        parts = [[_it(wrap, kids=p)] for p in parts]
+    else:
+        wrap = None
+
+    def body(k):
+        inner = {f"{d} x{k}": {}, f"{f} inet": {}, f"{g} 7": {}}
+        t = {f"{u} 0": dict(inner) if deep else {f"{f} inet": {}}, f"{f} top{k}": {}}
+        if not deep:
+            t[f"{d} y{k}"] = {}
+        if rng.random() < 0.4:
+            t[f"{u} 1"] = {f"{d} z": {}}
+        return t
+    rows = [(f"{w} a1", body(1)), (f"{w} x2", body(2))]
+    if rng.random() < 0.5:
+        rows.append((f"{w} b3", body(3)))
+    if rng.random() < 0.3:
+        rows.append((f"{w} a9", body(9)))
+    if rng.random() < 0.3:
+        rows.reverse()
+    tree = dict(rows)
+    if rng.random() < 0.3:
+        tree[f"{f} outside"] = {}
+    if wrap:
+        tree = {wrap: tree}
+    return parts, tree
 
 
 def gen_acl_conflict(rng: random.Random, rev: str) -> tuple[list[dict], dict]:
